@@ -321,7 +321,7 @@ def run(prog: Program, ctx: Ctx) -> None:  # noqa: PLR0912,PLR0915
             it.steps = 0
             it.call(hf, insp_o, Obj(None, {"obj": fobj, "name": fobj.__name__}))
             ps = made_f[0]["parameters"] if made_f else "no function built"
-            got: object = ps if not isinstance(ps, Obj) else [(q.attrs["name"], q.attrs["kind"].name.split(".")[-1], q.attrs["default"]) for q in ps.attrs["_params"]]
+            got: object = ps if not isinstance(ps, Obj) else [(q.attrs["name"], q.attrs["kind"].name.split(".")[-1], q.attrs["default"]) for q in it._iterate(ps)]
         except Raised as r:
             got = f"raises {r.exc}"
         ctx.ob("R11", f"parameters|{fobj.__name__}", got == want, f"def {fobj.__name__}{_insp.signature(fobj)}: the inspector records parameters {got}; the runtime signature has {want}", where(hf))
